@@ -43,7 +43,7 @@ func (fr *Frame) callValue(in ssa.CallInstruction, c *ssa.CallCommon, fv Val, ar
 			if lc := fr.innermostLoopCtx(in.Block()); lc != nil {
 				cenv.loop = lc
 			}
-			for n, tv := range fr.localsAt(in) {
+			for n, tv := range fr.localsInLoop(in) {
 				if _, ok := cenv.vars[n]; !ok {
 					cenv.vars[n] = tv
 				}
@@ -556,7 +556,11 @@ func (fr *Frame) applyContract(in ssa.CallInstruction, key string, fc *FuncContr
 	site := fmt.Sprintf("%s#%d", key, ord)
 	// requires
 	if fr.top || true {
-		if len(fc.Requires) > 0 && fr.top && fc.Kind == "func" {
+		localOnly := ex.fc != nil && ex.fc.LocalOnly
+		if localOnly && len(fc.Requires) > 0 {
+			ex.assumed["preconditions of the callees of "+ex.topFrame.fn.Name()+" are assumed, not checked (localonly: they would need a loop invariant)"] = true
+		}
+		if len(fc.Requires) > 0 && fr.top && fc.Kind == "func" && !localOnly {
 			if co := ex.addOblig("cover", "call."+site, ex.prog.pos(in.Pos()), mkNot(fr.cur), "the contracted call is reachable"); co != nil {
 				co.ExpectSat = true
 			}
@@ -567,7 +571,9 @@ func (fr *Frame) applyContract(in ssa.CallInstruction, key string, fc *FuncContr
 			if !fr.top {
 				lab = fr.fn.Name() + ">" + lab
 			}
-			ex.addOblig("pre@", lab, ex.prog.pos(in.Pos()), mkImp(fr.cur, g), c.Src)
+			if !localOnly {
+				ex.addOblig("pre@", lab, ex.prog.pos(in.Pos()), mkImp(fr.cur, g), c.Src)
+			}
 			fr.assume(g)
 		}
 	}
@@ -604,6 +610,27 @@ func (fr *Frame) applyContract(in ssa.CallInstruction, key string, fc *FuncContr
 			}
 		}
 		env2.vars["result"] = TV{V: vals[0], T: rs.At(0).Type()}
+		// A returned object that the callee allocated: its fields are whatever the callee stored there,
+		// not what the caller's (older) heap arrays held at that index.
+		allocOld := ex.get(old, allocKey, SInt)
+		for i := 0; i < rs.Len(); i++ {
+			pt, ok := rs.At(i).Type().Underlying().(*types.Pointer)
+			if !ok || vals[i].K != VPtr || vals[i].P.Root != "obj" || vals[i].P.Path != "" {
+				continue
+			}
+			if _, isS := pt.Elem().Underlying().(*types.Struct); !isS {
+				continue
+			}
+			cond := mkApp(">", ptrRef(vals[i].P), allocOld)
+			before := fr.st.clone()
+			fv, facts := ex.freshVal(fr.st, pt.Elem(), "fresh."+sanitize(key))
+			ex.store(fr.st, vals[i].P, pt.Elem(), fv)
+			fr.st = ex.mergeStates([]string{cond, "true"}, []*State{fr.st, before})
+			env2.st = fr.st
+			if len(facts) > 0 {
+				fr.assume(mkImp(cond, mkAnd(facts...)))
+			}
+		}
 		if rs.Len() == 1 {
 			res = vals[0]
 		} else {
@@ -668,11 +695,68 @@ func (fr *Frame) evalModLocs(env *Env, m Expr, fc *FuncContract, i int) (locs []
 	return env.modLocs(m)
 }
 
+// restoreLocalCells: a callee cannot reach the local variables of its callers. After a whole-array
+// havoc the cells of locals whose address never leaves the function (only loaded, stored, or captured by
+// a closure that is only deferred) get their previous contents back.
+func (fr *Frame) restoreLocalCells(saved *State) {
+	ex := fr.ex
+	for f := fr; f != nil; f = f.parent {
+		for _, b := range f.fn.Blocks {
+			for _, in := range b.Instrs {
+				al, ok := in.(*ssa.Alloc)
+				if !ok {
+					continue
+				}
+				v, have := f.vals[al]
+				if !have || v.K != VPtr || v.P.Root != "obj" || v.P.Path != "" {
+					continue
+				}
+				private := true
+				for _, ref := range *al.Referrers() {
+					switch u := ref.(type) {
+					case *ssa.Store:
+						if u.Val == al {
+							private = false
+						}
+					case *ssa.UnOp, *ssa.DebugRef:
+					case *ssa.MakeClosure:
+						for _, r2 := range *u.Referrers() {
+							switch r2.(type) {
+							case *ssa.Defer, *ssa.DebugRef:
+							default:
+								private = false
+							}
+						}
+					default:
+						private = false
+					}
+				}
+				if !private {
+					continue
+				}
+				et := al.Type().Underlying().(*types.Pointer).Elem()
+				for _, l := range ptrLocs(v.P, et) {
+					if len(l.Idx) != 1 {
+						continue
+					}
+					if _, ok := saved.heap[l.Key]; !ok {
+						continue
+					}
+					cur := ex.get(fr.st, l.Key, l.Sort)
+					prev := ex.get(saved, l.Key, l.Sort)
+					ex.set(fr.st, l.Key, l.Sort, mkStore(cur, l.Idx[0], mkSelect(prev, l.Idx[0])))
+				}
+			}
+		}
+	}
+}
+
 // havocLoc replaces the named locations by fresh values.
 func (fr *Frame) havocLoc(ml ModLoc) {
 	ex := fr.ex
 	if ml.Whole {
 		pre := strings.TrimSuffix(ml.Key, "*")
+		saved := fr.st.clone()
 		var ks []string
 		for k := range ex.hsort {
 			if strings.HasPrefix(k, pre) {
@@ -681,9 +765,17 @@ func (fr *Frame) havocLoc(ml ModLoc) {
 		}
 		sort.Strings(ks)
 		for _, k := range ks {
+			if k == allocKey {
+				// the allocation counter only grows
+				before := ex.get(fr.st, allocKey, SInt)
+				ex.havocKey(fr.st, k)
+				fr.assume(mkApp(">=", ex.get(fr.st, allocKey, SInt), before))
+				continue
+			}
 			ex.havocKey(fr.st, k)
 		}
 		fr.st.wild = append(fr.st.wild, pre)
+		fr.restoreLocalCells(saved)
 		return
 	}
 	a := ex.get(fr.st, ml.Key, ml.Sort)
@@ -707,7 +799,52 @@ func (fr *Frame) localsAt(at ssa.Instruction) map[string]TV {
 }
 
 func (fr *Frame) localsAtBlock(ab *ssa.BasicBlock, at ssa.Instruction) map[string]TV {
+	out, _ := fr.localsAtSrc(ab, at)
+	return out
+}
+
+// localsInLoop: the locals visible at instruction at, where a loop-carried variable whose most recent
+// DebugRef on the dominator chain lies outside (before) the innermost enclosing loop takes its value at
+// the head of the current iteration instead (the pre-loop binding is stale inside the loop).
+func (fr *Frame) localsInLoop(at ssa.Instruction) map[string]TV {
+	out, src := fr.localsAtSrc(at.Block(), at)
+	var best *Loop
+	for _, l := range fr.loops {
+		if l.blocks[at.Block()] && (best == nil || len(l.blocks) < len(best.blocks)) {
+			best = l
+		}
+	}
+	if best == nil {
+		// after a loop: a return dominated by a loop head
+		return out
+	}
+	lc := fr.loopCtx[best.head]
+	if lc == nil || lc.Prev == nil {
+		return out
+	}
+	for n, tv := range lc.Prev {
+		if b, ok := src[n]; ok && !best.blocks[b] {
+			out[n] = tv
+		}
+	}
+	return out
+}
+
+// localsSince: the locals bound by a DebugRef at or after the head of loop l on the dominator chain of
+// at (bindings from before the loop are left to the loop context: they are stale for loop-carried variables).
+func (fr *Frame) localsSince(at ssa.Instruction, l *Loop) map[string]TV {
+	out, src := fr.localsAtSrc(at.Block(), at)
+	for n, b := range src {
+		if b != l.head && !l.head.Dominates(b) {
+			delete(out, n)
+		}
+	}
+	return out
+}
+
+func (fr *Frame) localsAtSrc(ab *ssa.BasicBlock, at ssa.Instruction) (map[string]TV, map[string]*ssa.BasicBlock) {
 	out := map[string]TV{}
+	src := map[string]*ssa.BasicBlock{}
 	var chain []*ssa.BasicBlock
 	for b := ab; b != nil; b = b.Idom() {
 		chain = append(chain, b)
@@ -724,6 +861,15 @@ func (fr *Frame) localsAtBlock(ab *ssa.BasicBlock, at ssa.Instruction) map[strin
 						break
 					}
 				}
+			}
+			if ph, isPhi := in.(*ssa.Phi); isPhi && ph.Comment != "" && ph.Comment != "rangeindex" {
+				// a merge of different assignments to the variable: the phi carries the variable's name;
+				// it supersedes any DebugRef seen earlier on the dominator chain
+				if v, have := fr.vals[ph]; have {
+					out[ph.Comment] = TV{V: v, T: ph.Type()}
+					src[ph.Comment] = b
+				}
+				continue
 			}
 			dr, ok := in.(*ssa.DebugRef)
 			if !ok {
@@ -744,13 +890,15 @@ func (fr *Frame) localsAtBlock(ab *ssa.BasicBlock, at ssa.Instruction) map[strin
 			if dr.IsAddr {
 				if v.K == VPtr {
 					out[obj.Name()] = TV{V: fr.ex.load(fr.st, v.P, obj.Type()), T: obj.Type()}
+					src[obj.Name()] = b
 				}
 				continue
 			}
 			out[obj.Name()] = TV{V: v, T: obj.Type()}
+			src[obj.Name()] = b
 		}
 	}
-	return out
+	return out, src
 }
 
 // ---- inlining ------------------------------------------------------------------------
